@@ -75,6 +75,8 @@ pub struct Instance {
     /// Ops programs: the caller may also drop a pending write() future (the packet being written is
     /// then torn by the caller's own doing; keep-alive replies must stay whole and single all the same)
     pub cancel_writes: bool,
+    /// the write half offers only {1 byte, everything} (long write sequences)
+    pub accept_few: bool,
     /// compare with the other implementation on histories both can execute
     pub differential: bool,
 }
@@ -102,6 +104,7 @@ impl Instance {
             storm_budget: 0,
             handshake: None,
             cancel_writes: false,
+            accept_few: false,
             differential: false,
         }
     }
@@ -164,7 +167,7 @@ fn ticks(hist: &[Act]) -> (u8, u8) {
 }
 
 fn storms(hist: &[Act]) -> u8 {
-    hist.iter().filter(|a| matches!(a, Act::ReadStorm | Act::WriteStorm)).count() as u8
+    hist.iter().filter(|a| matches!(a, Act::ReadStorm | Act::WriteStorm | Act::FailStorm(_))).count() as u8
 }
 
 fn spend(hist: &[Act]) -> (u8, u8, u8, bool) {
@@ -283,13 +286,24 @@ fn enabled(inst: &Instance, hist: &[Act], r: &RunResult) -> Vec<Act> {
             if is_async && storms(hist) < inst.storm_budget {
                 out.push(Act::ReadStorm);
             }
+            if storms(hist) < inst.storm_budget && inst.fail_budget > 0 {
+                // a storm of transient errors (first and last of the instance's kinds)
+                if let Some(k) = inst.fail_kinds.first() {
+                    out.push(Act::FailStorm(*k));
+                }
+                if inst.fail_kinds.len() > 1 {
+                    out.push(Act::FailStorm(*inst.fail_kinds.last().unwrap()));
+                }
+            }
             if is_async && canc < inst.cancel_budget {
                 out.push(Act::Cancel);
             }
         },
         Some(Side::Write) => {
             let off = r.offered;
-            let mut ks: Vec<usize> = if off <= 12 {
+            let mut ks: Vec<usize> = if inst.accept_few {
+                vec![1, off]
+            } else if off <= 12 {
                 (1..=off).collect()
             } else {
                 vec![1, 2, 3, 4, off / 2, off - 1, off]
